@@ -5,10 +5,11 @@
                               every required field was decoded -- for EVERY number of required
                               fields (more than 64: the equality never holds)
    msg_fast_flag_sound        flag set -> the decoded message is initialized, for schemas satisfying
-                              msg_init_wf (which excludes the shapes of findings FA2 and, as a
-                              restriction of this proof, maps whose value type needs an init check)
+                              msg_init_wf (which excludes, as a restriction of this proof, maps whose
+                              value type needs an init check: finding FA5 lives there)
    msg_unmarshal_exact, msg_unmarshal_slow_exact, msg_marshal_exact, msg_allow_partial_*
-   msg_fast_flag_sound_refuted_FA2 / _FA5, msg_unmarshal_lazy_exact_refuted_FA1   witnesses *)
+   msg_fast_flag_sound_refuted_FA5, msg_unmarshal_lazy_exact_refuted_FA1   witnesses;
+   msg_flag_oneof_member_FA2_repaired   the witness of the repaired finding FA2 now clears the flag *)
 From Coq Require Import List NArith ZArith Bool Lia.
 From Coq Require Import ZifyBool ZifyNat ZifyN.
 From PB Require Import Base.PBytes Wire.WireModel Msg.MsgSchema Msg.MsgValue Msg.MsgEnc Msg.MsgDec Msg.MsgValid
@@ -364,8 +365,6 @@ Proof. destruct es as [|[s|fs u|k0 v0] r]; cbn [msg_map_put]; try discriminate. 
 Record msg_md_wf (ni : nat -> bool) (md : mdesc) : Prop := {
   wf_uniq : msg_nums_unique md;
   wf_req : forall fd, In fd md -> msg_is_req fd = true -> f_ext fd = false /\ f_oneof fd = None;
-  (* exclusion of finding FA2: message-typed oneof members are the first member of their oneof *)
-  wf_oneof : forall fd t, In fd md -> (f_kind fd = KMsg t \/ f_kind fd = KGrp t) -> msg_tracks_init md fd = true;
   (* restriction [maps]: map values do not need an init check *)
   wf_map : forall fd kk ku vd t, In fd md -> f_card fd = CMap kk ku vd ->
                                  (f_kind fd = KMsg t \/ f_kind fd = KGrp t) -> ni t = false
@@ -590,7 +589,7 @@ Section Flag.
       (forall kk ku vd, f_card fd <> CMap kk ku vd) ->
       (f = true -> msg_subs_ok S md fs -> msg_check_init S t (VMsg (fst m) (snd m)) = true) ->
       msg_inv S md fs st ->
-      msg_inv S md (msg_store_sub md fd m fs) (msg_iupd md fd f (msg_ihit md fd st)).
+      msg_inv S md (msg_store_sub md fd m fs) (msg_iupd fd f (msg_ihit md fd st)).
     Proof.
       intros Hf Hk Hnm Hm [Hmask Hsub].
       assert (Hkeeps : msg_keeps md fs (msg_store_sub md fd m fs)).
@@ -606,12 +605,11 @@ Section Flag.
         { unfold msg_ihit. cbn [fst]. destruct (f_ext fd) eqn:Hx.
           - rewrite N.lor_0_r. exact (msg_mask_ok_keeps _ _ _ _ Hkeeps Hmask).
           - apply msg_mask_ok_hit; [exact (msg_mask_ok_keeps _ _ _ _ Hkeeps Hmask)|]. intros _ _. exact Hpres. }
-        unfold msg_iupd. destruct f; [exact Hm2|]. destruct (msg_tracks_init md fd); exact Hm2.
+        unfold msg_iupd. destruct f; exact Hm2.
       - (* sub-values *)
         intros Hok.
         assert (Hf_true : f = true /\ snd st = true).
-        { unfold msg_iupd, msg_ihit in Hok. destruct f; [split; [reflexivity|exact Hok]|].
-          rewrite (wf_oneof ni md Hmdwf fd t (proj1 (msg_find_in_self md fd _ Hf)) Hk) in Hok. discriminate. }
+        { unfold msg_iupd, msg_ihit in Hok. destruct f; [split; [reflexivity|exact Hok]|]. discriminate. }
         destruct Hf_true as [-> Hst]. specialize (Hsub Hst). specialize (Hm eq_refl Hsub).
         apply (msg_subs_ok_store md S fs _ (f_num fd) Hsub). intros p Hp.
         unfold msg_store_sub in Hp. destruct (card_repeated (f_card fd)).
@@ -718,7 +716,7 @@ Section Flag.
           | Ok (payload, r') =>
             match msg_iwhole (im d) tid payload with
             | DErr e => DErr e
-            | DOk f => DOk (msg_iupd md fd f (msg_ihit md fd st), r')
+            | DOk f => DOk (msg_iupd fd f (msg_ihit md fd st), r')
             end
           end
         else msg_iskip num typ r st
@@ -726,7 +724,7 @@ Section Flag.
         if typ =? 3 then
           match im d tid num (x00 :: r) r with
           | DErr e => DErr e
-          | DOk (f, r') => DOk (msg_iupd md fd f (msg_ihit md fd st), r')
+          | DOk (f, r') => DOk (msg_iupd fd f (msg_ihit md fd st), r')
           end
         else msg_iskip num typ r st
       | KS sk =>
@@ -958,7 +956,7 @@ Section Flag2.
   Qed.
 End Flag2.
 
-(* the fast path never marks a partial message as initialized (for schemas outside FA2 / [maps]) *)
+(* the fast path never marks a partial message as initialized (restriction [maps]) *)
 Theorem msg_fast_flag_sound S ni limit tid bs v :
   msg_init_wf S ni ->
   msg_decode false S limit tid bs = DOk v ->
@@ -1027,12 +1025,11 @@ Definition ex_req : mdesc := [mkF 1 (KS SkInt32) CReq None false false false].
 (* FA2: One { oneof u { int32 x = 1; Req m = 2; } } *)
 Definition ex_fa2 : schema :=
   [[mkF 1 (KS SkInt32) COpt (Some 0) false false false; mkF 2 (KMsg 1) COpt (Some 0) false false false]; ex_req].
-Lemma msg_fast_flag_sound_refuted_FA2 :
-  exists S ni bs v, msg_decode false S 100 0 bs = DOk v /\ msg_init_flag S ni 100 0 bs = DOk true /\
-                    msg_check_init S 0 v = false.
-Proof.
-  exists ex_fa2, (fun _ => true), [n2b 18; n2b 0]. eexists. vm_compute. repeat split; reflexivity.
-Qed.
+(* (repaired in the code, so in the model: the partial non-first member now clears the flag) *)
+Lemma msg_flag_oneof_member_FA2_repaired :
+  msg_init_flag ex_fa2 (fun _ => true) 100 0 [n2b 18; n2b 0] = DOk false /\
+  msg_init_flag ex_fa2 (fun _ => true) 100 0 [n2b 18; n2b 2; n2b 8; n2b 1] = DOk true.
+Proof. vm_compute. split; reflexivity. Qed.
 (* FA5: MapV { map<int32, V> mv = 1; }  V { optional Req child = 4; } ; entry = key 1, value {}, value {child {}} *)
 Definition ex_fa5 : schema :=
   [[mkF 1 (KMsg 1) (CMap SkInt32 false 0) None false false false];
@@ -1062,10 +1059,8 @@ Proof.
     inversion Hmd; subst md; constructor.
   - intros fd [<-|[<-|[<-|[]]]]; reflexivity.
   - intros fd [<-|[<-|[<-|[]]]] H; discriminate.
-  - intros fd t [<-|[<-|[<-|[]]]] _; reflexivity.
   - intros fd kk ku vd t [<-|[<-|[<-|[]]]] H; discriminate.
   - intros fd [<-|[]]; reflexivity.
   - intros fd [<-|[]] _. split; reflexivity.
-  - intros fd t [<-|[]] [H|H]; discriminate.
   - intros fd kk ku vd t [<-|[]] H; discriminate.
 Qed.
